@@ -53,9 +53,6 @@ var boundsReviewed = map[string]string{
 	"object.(BigArray).Swap | index of a slice #4":                    "sort.Interface contract: called by package sort with 0 <= i, j < Len()",
 	"object.(Extension).Usage | index of a slice":                     "i runs over 1..MinArgs and MustCreate rejects a registration with fewer ArgTypes than MinArgs; the second site is under len(e.ArgTypes) > e.MinArgs",
 	"object.(Extension).Usage | index of a slice #2":                  "i runs over 1..MinArgs and MustCreate rejects a registration with fewer ArgTypes than MinArgs; the second site is under len(e.ArgTypes) > e.MinArgs",
-	"object.Cmp | index of a slice #2":                                "both containers have the same Len() (the two length comparisons above returned otherwise) and Elements/mapElements return Len() items",
-	"object.Cmp | index of a slice #3":                                "both containers have the same Len() (the two length comparisons above returned otherwise) and Elements/mapElements return Len() items",
-	"object.Cmp | index of a slice #5":                                "both containers have the same Len() (the two length comparisons above returned otherwise) and Elements/mapElements return Len() items",
 	"object.Elements | index of a slice #2":                           "res is made with v.len entries and the loop ranges over smallKV[:v.len]",
 	"object.First | constant high bound 1 of a slice":                 "a.Value is not empty on this path, so it has at least one rune",
 }
@@ -708,6 +705,9 @@ func (c *Ctx) checkSliceBounds(r *Report, rule string, pkgs map[string]bool) {
 				if !hi && sl != nil && bd.v == sl.Low && sl.High != nil && c.proveLE(sl.Low, sl.High, in.Block(), 0) {
 					hi = bp.ltLen(sl.High, operand, in.Block(), false, 0, map[ssa.Value]bool{})
 				}
+				if !hi && bd.strict {
+					hi = bp.equalLenContainers(bd.v, operand, in.Block())
+				}
 				lo := bp.nonNeg(bd.v, in.Block(), 0, map[ssa.Value]bool{}) || c.proveLo(bd.v, in.Block(), 0)
 				if !lo && sl != nil && bd.v == sl.High && sl.Low != nil && c.proveLE(sl.Low, sl.High, in.Block(), 0) {
 					lo = bp.nonNeg(sl.Low, in.Block(), 0, map[ssa.Value]bool{}) || c.proveLo(sl.Low, in.Block(), 0)
@@ -765,4 +765,100 @@ func (c *Ctx) checkSliceBounds(r *Report, rule string, pkgs map[string]bool) {
 	if nProven < 60 {
 		r.Undecided("%s: only %d index/slice sites proven", rule, nProven)
 	}
+}
+
+// elementsOf: x is B.Elements() / B.mapElements() for a container B of package object (the accessors that
+// return Len() items: the array and map representations keep that, C07.R3/R4); returns B and the accessor.
+func elementsOf(x ssa.Value) (ssa.Value, string) {
+	call, ok := x.(*ssa.Call)
+	if !ok {
+		return nil, ""
+	}
+	cc := call.Common()
+	if cc.IsInvoke() {
+		if n := cc.Method.Name(); (n == "Elements" || n == "mapElements") && cc.Method.Pkg() != nil && cc.Method.Pkg().Name() == "object" {
+			return cc.Value, n
+		}
+		return nil, ""
+	}
+	if f := cc.StaticCallee(); f != nil && f.Signature.Recv() != nil && len(cc.Args) == 1 && f.Pkg != nil && f.Pkg.Pkg.Name() == "object" && (f.Name() == "Elements" || f.Name() == "mapElements") {
+		return cc.Args[0], f.Name()
+	}
+	return nil, ""
+}
+
+func isLenCallOn(v ssa.Value, on ssa.Value) bool {
+	call, ok := v.(*ssa.Call)
+	if !ok {
+		return false
+	}
+	cc := call.Common()
+	if cc.IsInvoke() {
+		return cc.Method.Name() == "Len" && len(cc.Args) == 0 && cc.Value == on
+	}
+	f := cc.StaticCallee()
+	return f != nil && f.Name() == "Len" && f.Signature.Recv() != nil && len(cc.Args) == 1 && cc.Args[0] == on
+}
+
+// equalLenContainers: the operand is B's elements, the index is proven below the length of A's elements (same
+// accessor), and where `at` executes A.Len() == B.Len() is established (an == test, or both orderings
+// excluded): two containers compared element by element after their lengths.
+func (bp *boundProver) equalLenContainers(i, operand ssa.Value, at *ssa.BasicBlock) bool {
+	b, acc := elementsOf(operand)
+	if b == nil {
+		return false
+	}
+	found := false
+	eachInstr(at.Parent(), func(in ssa.Instruction) {
+		v, ok := in.(ssa.Value)
+		if !ok || found {
+			return
+		}
+		a, acc2 := elementsOf(v)
+		if a == nil || acc2 != acc || a == b {
+			return
+		}
+		if !bp.ltLen(i, v, at, true, 0, map[ssa.Value]bool{}) {
+			return
+		}
+		// A.Len() == B.Len() where at executes
+		notLess, notGreater := false, false
+		for _, cc := range controlling(at) {
+			bin, ok := cc.Cond.(*ssa.BinOp)
+			if !ok {
+				continue
+			}
+			op := bin.Op
+			switch {
+			case isLenCallOn(bin.X, a) && isLenCallOn(bin.Y, b):
+			case isLenCallOn(bin.X, b) && isLenCallOn(bin.Y, a):
+				if f, ok := flipOp[op]; ok {
+					op = f
+				}
+			default:
+				continue
+			}
+			if cc.Edge == 1 {
+				n, ok := negOp[op]
+				if !ok {
+					continue
+				}
+				op = n
+			}
+			switch op { // relation between A.Len() and B.Len()
+			case token.EQL:
+				notLess, notGreater = true, true
+			case token.GEQ:
+				notLess = true
+			case token.LEQ:
+				notGreater = true
+			}
+		}
+		// the index is below len(A's elements) = A.Len() <= B.Len() = len(B's elements)
+		if notGreater {
+			found = true
+		}
+		_ = notLess
+	})
+	return found
 }
